@@ -4,18 +4,19 @@ from lib import e4_check
 
 def run(ctx: Ctx) -> int:
     from lib import e7_corpus
-    total = len(e7_corpus.corpus("c07"))
-    jobs = e4_check.jobs_for(ctx, "c07", total, batch=1, timeout=ctx.pick(400, 1500), total=total, harness="harness/E7_equiv.py", fn="h_equiv7")
+    ngen = ctx.pick(12, 120)
+    total = len(e7_corpus.corpus("c07", None, ngen, ctx.seed))
+    jobs = e4_check.jobs_for(ctx, "c07", ngen, batch=1, timeout=ctx.pick(400, 1500), total=total, harness="harness/E7_equiv.py", fn="h_equiv7")
     ctx.functions_encoded = ["compiler/expr_compiler.py: ExprCompiler.visit_GlobalCall / visit_LocalCall, _compile_call_args, _update_inout_ports (write-back of borrowed arguments, "
                              "`__setitem__` write-back for subscript places), visit_PlaceNode; compiler/stmt_compiler.py: _assign_place; checker/expr_checker.py: check_place_assignable, "
                              "synthesize_instance_func; checker/linearity_checker.py (the programs must be accepted); std/_internal/compiler/array.py (get / set / borrow / return lowerings) — "
                              "all through the real check() + CompilerContext.compile; the emitted HUGR is interpreted by lib/e7.py"]
-    ctx.bounds = {"programs": f"{total} fixed programs: callees that set, add to, swap, rotate and fill a borrowed int array; nested borrowing calls; two arrays borrowed by one call; "
+    ctx.bounds = {"programs": f"{total - ngen} fixed programs + {ngen} generated ones (seed {ctx.seed}: 3-6 borrowing calls on two int arrays and an array of arrays, computed and effectful indices / values, some under if / for): callees that set, add to, swap, rotate and fill a borrowed int array; nested borrowing calls; two arrays borrowed by one call; "
                               "a borrowed row of an array of arrays (constant and computed row index); an array held in a struct field, in a tuple element and in a struct that is itself an array element; borrows inside loops and branches",
                   "inputs": "x in [-3, 4], y in [-1000, 1000], results of the first 8 opaque calls in [-1000, 1000] (symbolic)",
                   "oracle": "CPython executes the same source with lists (reference semantics); the helper functions are the same text, annotations stripped"}
     ctx.outside_claim = ["qubits and gate application (nothing executes quantum ops here)", "mutation of classical struct fields (rejected by /repo)", "everything after the emitted HUGR",
-                         "array indices outside [0, n) (C19)", "programs beyond the fixed list"]
+                         "array indices outside [0, n) (C19)", "programs beyond the fixed list and the generated callers"]
     ctx.assumptions = ["lib/e7.py's reading of the HUGR array ops (value semantics, get / set / borrow / return) and of CFG / Conditional / Call nodes"]
     ctx.crosshair(jobs)
     e7r = e4_check.collect_e5(ctx, "e7report")
